@@ -2081,6 +2081,7 @@ class SQLiteIdentifierPreparer(compiler.IdentifierPreparer):
         "match",
         "natural",
         "not",
+        "nothing",
         "notnull",
         "null",
         "of",
@@ -2099,6 +2100,7 @@ class SQLiteIdentifierPreparer(compiler.IdentifierPreparer):
         "rename",
         "replace",
         "restrict",
+        "returning",
         "right",
         "rollback",
         "row",
